@@ -1063,20 +1063,37 @@ def gen_atoms(problems):
 
 
 def gen_math(problems):
+    """`math::rotate`, `math::count_bits`; a function outside the subset becomes a placeholder with its signature (and is
+    reported), so that the rest of the file still builds"""
     out = []
     path = os.path.join(REPO, "src", "math", "mod.rs")
     try:
         toks = tokenize(open(path).read())
+    except (Unsupported, OSError) as ex:
+        problems.append(f"math/mod.rs: {ex}")
+        toks = None
+    def one(name, build, sig, stub):
+        try:
+            if toks is None:
+                raise Unsupported("file not readable")
+            v = build()
+            out.append(f"/-- `math::{name}` -/\n{sig} :=\n  {v}\n")
+        except (Unsupported, OSError, TypeError, IndexError, KeyError) as ex:
+            if toks is not None:
+                problems.append(f"math/mod.rs: math/mod.rs::{name}: {ex}")
+            out.append(f"/-- `math::{name}` — NOT TRANSLATED (outside the subset): placeholder -/\n{sig} :=\n  {stub}\n")
+    def b_rotate():
         params, ret, body = find_fn(toks, "rotate")
         if [(p[0], p[2]) for p in params] != [("z", "C"), ("q", "N")]:
             raise Unsupported("rotate signature")
         v, t = Emitter("math/mod.rs::rotate").block(body, {"z": ("z", "C"), "q": ("q", "N")}, "C")
-        out.append(f"/-- `math::rotate` -/\ndef rotate (z : Cx R) (q : Nat) : Cx R :=\n  {v}\n")
+        return v
+    def b_count():
         params, ret, body = find_fn(toks, "count_bits")
         v, t = Emitter("math/mod.rs::count_bits").block(body, {params[0][0]: ("n", "N")}, "N")
-        out.append(f"/-- `math::count_bits` -/\ndef count_bits (n : Nat) : Nat :=\n  {v}\n")
-    except (Unsupported, OSError, TypeError) as ex:
-        problems.append(f"math/mod.rs: {ex}")
+        return v
+    one("rotate", b_rotate, "def rotate (z : Cx R) (q : Nat) : Cx R", "z")
+    one("count_bits", b_count, "def count_bits (n : Nat) : Nat", "0")
     return out
 
 
@@ -1115,8 +1132,12 @@ def gen_dispatch(problems):
     except (Unsupported, OSError) as ex:
         problems.append(f"dispatch.rs: dispatch.rs::for_each: {ex}")
         problems.append(f"dispatch.rs: dispatch.rs::for_each_par: {ex}")
-        return out
+        toks = []
     bodies = {}
+    def stub(fn, nm):
+        # outside the subset: a placeholder with the signature, so that everything else still builds (its equality fails)
+        out.append(f"/-- `dispatch.rs`: `AtomicOp::{fn}` — NOT TRANSLATED (outside the subset): placeholder -/\n"
+                   f"def {nm} (op : State R → Nat → Cx R) (psi_i : State R) (ctrl idx : Nat) : Cx R :=\n  psi_i idx\n")
     for fn in ("for_each", "for_each_par"):
         try:
             a, b = fn_range(toks, fn)
@@ -1174,11 +1195,15 @@ def gen_dispatch(problems):
             nm = "forEach" if fn == "for_each" else "forEachPar"
             out.append(f"/-- `dispatch.rs`: the value `AtomicOp::{fn}` writes to `psi_o[idx]` -/\n"
                        f"def {nm} (op : State R → Nat → Cx R) (psi_i : State R) (ctrl idx : Nat) : Cx R :=\n  {v}\n")
-        except (Unsupported, IndexError) as ex:
+        except (Unsupported, IndexError, TypeError, KeyError) as ex:
             msg = str(ex)
             if not msg.startswith(f"dispatch.rs::{fn}"):
                 msg = f"dispatch.rs::{fn}: {msg}"
-            problems.append(f"dispatch.rs: {msg}")
+            if toks:
+                problems.append(f"dispatch.rs: {msg}")
+            stub(fn, "forEach" if fn == "for_each" else "forEachPar")
+    if len(bodies) != 2:
+        out.append("/-- the sweeps could not both be translated: not known to be twins -/\ndef forEachTwins : Bool := false\n")
     if len(bodies) == 2:
         out.append(f"/-- the sequential and the parallel sweep compute every element by the same expression (token-identical closures) -/\n"
                    f"def forEachTwins : Bool := {'true' if bodies['for_each'] == bodies['for_each_par'] else 'false'}\n")
